@@ -1455,6 +1455,27 @@ def c03(tier):
               "MIX 1,ON,'s',#11x,-32769", "MIX 256,2,s,'x',99999", "MIX 1,ON,'s',#11x", "MIXQ? -128,1.5,18446744073709551615",
               "MIXQ? -129,1.5,1", "MIXQ? 1,x,1", "MIXQ? 1,1.5,18446744073709551616", "MIXQ? 1,1e999,7", "MIX 0,off,\"\",#10,0"]:
         cases.append(run_case(m + "\n", iface="vals"))
+    # the conversions called directly (TryInto for Value and &Value), token kinds as the scanner classifies them
+    import re as _re
+    def _tok(lit):
+        bl = lit.encode("latin1")
+        if _re.fullmatch(rb"[A-Za-z][A-Za-z0-9_]*", bl):
+            return {"k": "chr", "t": b(bl)}
+        m = _re.fullmatch(rb"#([HhBbQq])([0-9A-Fa-f]+)", bl)
+        if m:
+            return {"k": {"h": "hex", "b": "bin", "q": "oct"}[m.group(1).decode().lower()], "t": b(m.group(2))}
+        if _re.fullmatch(rb"[+-]?(\d+\.?\d*|\.\d+)([eE][+-]?\d+)?", bl):
+            return {"k": "dec", "t": b(bl)}
+        if len(bl) >= 2 and bl[0] == bl[-1] and bl[0] in b"'\"":
+            return {"k": "str", "t": b(bl[1:-1])}
+        return None
+    nconv = 0
+    for ty, lit in lits:
+        tk = _tok(lit)
+        if tk and (tk["k"] not in ("hex", "bin", "oct") or True):
+            cases.append({"kind": "conv", "ty": ty, "tok": tk})
+            nconv += 1
+    s.cov["direct_conversions"] = nconv
     recs = s.execute(cases, "c03")
     rejected = s.validate(recs, "c03", chunk=4000)
     s.report_rejected(rejected, "a literal was delivered with a value it does not denote, a handler was invoked despite an unfit literal / wrong count, "
@@ -1462,6 +1483,15 @@ def c03(tier):
     # float half: the delivered bits must be the correctly rounded value (exact rational arithmetic)
     nflt = bad = 0
     for r in recs:
+        if r["kind"] == "conv":
+            if r["ty"] in ("f32", "f64") and r["tok"]["k"] == "dec" and r["obs"].get("r") == "conv" and r["obs"]["byval"].get("ok"):
+                nflt += 1
+                want = F.dec_to_bits(bytes(r["tok"]["t"]), r["ty"])
+                got = int(r["obs"]["byval"]["v"]["bits"], 16)
+                if got != want and len(s.violations) < 8:
+                    p = C.write_replay("C03", "conv-float-%d" % nflt, {"why": "TryInto delivered bits %x, correctly rounded is %x" % (got, want), "record": r})
+                    s.violations.append(("TryInto<%s> of %r delivered %x, correctly rounded value is %x" % (r["ty"], bytes(r["tok"]["t"]), got, want), p))
+            continue
         txt = bytes(r["in"])
         if not (txt.startswith(b"V:F32 ") or txt.startswith(b"V:F64 ")):
             continue
